@@ -154,6 +154,6 @@ def is_relevant(node):
                 return True
         elif node.get_ident() in ['declare-fun', 'define-fun', 'define-sort'
                                   ] and len(node) > 3:
-            if nodes.contains(node[3], lambda t: t in ['Int', 'Real']):
+            if nodes.contains(node[2:4], lambda t: t in ['Int', 'Real']):
                 return True
     return False
